@@ -9,7 +9,7 @@ import (
 	"time"
 )
 
-var c05Alpha = []Beh{BPass, BSkip, BFatalA, BFatalB, BPanicStr, BErrorf, BCleanupPanic}
+var c05Alpha = []Beh{BPass, BSkip, BFatalA, BFatalB, BPanicStr, BErrorf, BCleanupPanic, BFailNowC, BFailNowD, BPanicDivA, BPanicDivB}
 
 func finalBuffer(env *Env) ([]uint64, bool) {
 	for i := len(env.Bufs) - 1; i >= 0; i-- {
@@ -96,6 +96,7 @@ func c05Units(tier string, seed int64) []Unit {
 	var units []Unit
 	progs := []func() *LazyProgram{
 		func() *LazyProgram { return progTwoSites() },
+		func() *LazyProgram { return progSameMessage() },
 		func() *LazyProgram { return progThreshold(100) },
 		func() *LazyProgram { return progNonFatal(5) },
 		func() *LazyProgram { return progMachine() },
